@@ -40,8 +40,22 @@ type c29def struct {
 
 type c29defs map[types.Object][]c29def
 
+// c29TopStmt: positions of the statements that are direct children of a function
+// body handed to c29Defs (executed unconditionally, in order, unless an earlier
+// statement leaves the function). c29UsePos: position of the use whose value
+// c29Bytes is asked for (0 = unknown).
+var (
+	c29TopStmt = map[token.Pos]bool{}
+	c29UsePos  token.Pos
+)
+
 func c29Defs(info *types.Info, body ast.Node) c29defs {
 	m := c29defs{}
+	if blk, ok := body.(*ast.BlockStmt); ok && blk != nil {
+		for _, st := range blk.List {
+			c29TopStmt[st.Pos()] = true
+		}
+	}
 	add := func(id *ast.Ident, d c29def) {
 		if id == nil || id.Name == "_" {
 			return
@@ -206,16 +220,27 @@ func (c *Ctx) c29BytesMulti(info *types.Info, defs c29defs, x *ast.Ident, depth 
 	var base *c29def
 	var pre, post []c29part
 	for i := range ds {
-		d := ds[i]
-		if d.rhs == nil {
-			return unknown
-		}
-		if !mentions(info, d.rhs, obj) {
+		if ds[i].rhs != nil && !mentions(info, ds[i].rhs, obj) {
 			if base != nil {
 				return unknown
 			}
 			base = &ds[i]
+		}
+	}
+	for i := range ds {
+		d := ds[i]
+		if d.rhs == nil {
+			return unknown
+		}
+		if base == &ds[i] {
 			continue
+		}
+		// an extension that is a statement of the function body itself, after the
+		// base definition and before the use, always happens: its bytes are part
+		// of the value, not "conditionally present"
+		ext := "optconst"
+		if base != nil && c29UsePos.IsValid() && c29TopStmt[d.pos] && c29TopStmt[base.pos] && base.pos < d.pos && d.pos < c29UsePos {
+			ext = "const"
 		}
 		ap, ok := isBuiltinCall(info, d.rhs, "append")
 		if !ok || d.idx >= 0 || len(ap.Args) != 2 {
@@ -230,13 +255,13 @@ func (c *Ctx) c29BytesMulti(info *types.Info, defs c29defs, x *ast.Ident, depth 
 			if len(ps) != 1 || ps[0].kind != "const" {
 				return unknown
 			}
-			pre = append(pre, c29part{kind: "optconst", val: ps[0].val})
+			pre = append([]c29part{{kind: ext, val: ps[0].val}}, pre...)
 		case is0 && info.ObjectOf(id0) == obj && !mentions(info, a1, obj):
 			ps := c.c29Bytes(info, c29defs{}, a1, depth+1)
 			if len(ps) != 1 || ps[0].kind != "const" {
 				return unknown
 			}
-			post = append(post, c29part{kind: "optconst", val: ps[0].val})
+			post = append(post, c29part{kind: ext, val: ps[0].val})
 		default:
 			return unknown
 		}
@@ -416,7 +441,7 @@ func runC29(c *Ctx) {
 			}
 		}
 		for _, call := range calls(fd.Body, true) {
-			if callIs(info, call, "os", "", "OpenFile") {
+			if callIs(info, call, "os", "", "OpenFile") && !c.c29ReadOnlyOpen(info, call) {
 				writers = append(writers, fd)
 				break
 			}
@@ -511,6 +536,7 @@ func (c *Ctx) c29Reader(pk *packages.Package, fd *ast.FuncDecl) (types.Type, map
 	for _, s := range scanners {
 		// the scan loop(s) of this scanner
 		var loops []*ast.ForStmt
+		explicitHead := map[*ast.ForStmt]bool{}
 		ast.Inspect(fd.Body, func(n ast.Node) bool {
 			if f, ok := n.(*ast.ForStmt); ok {
 				hit := false
@@ -533,6 +559,11 @@ func (c *Ctx) c29Reader(pk *packages.Package, fd *ast.FuncDecl) (types.Type, map
 							hit = true
 						}
 					}
+				}
+				if !hit && f.Cond == nil && f.Init == nil && f.Post == nil && len(f.Body.List) > 0 && c29ScanBreakHead(info, f.Body.List[0], s.obj) {
+					// for { if !sc.Scan() { break }; … } is `for sc.Scan() { … }`
+					hit = true
+					explicitHead[f] = true
 				}
 				if !hit && f.Cond == nil { // for { if !sc.Scan() { break } ... }
 					for _, call := range calls(f.Body, false) {
@@ -680,7 +711,12 @@ func (c *Ctx) c29Reader(pk *packages.Package, fd *ast.FuncDecl) (types.Type, map
 					return true
 				})
 			}
-			visit(loop.Body, true, true)
+			if explicitHead[loop] {
+				// the written-out loop condition is not an exit of the body
+				visit(&ast.BlockStmt{Lbrace: loop.Body.Lbrace, List: loop.Body.List[1:], Rbrace: loop.Body.Rbrace}, true, true)
+			} else {
+				visit(loop.Body, true, true)
+			}
 			if len(bad) == 0 {
 				c.OK("R29a", lkey, loop.Pos(), "scan loop of %s ends only at end of input", fn)
 			} else {
@@ -701,7 +737,11 @@ func (c *Ctx) c29Reader(pk *packages.Package, fd *ast.FuncDecl) (types.Type, map
 			}
 			// source bytes come from this scanner
 			srcOK := false
-			if call, ok := stripConv(info, unmarshal.Args[0]).(*ast.CallExpr); ok {
+			srcE := stripConv(info, unmarshal.Args[0])
+			if d, ok := defs.single(info, srcE); ok && d.idx < 0 { // line := scanner.Bytes()
+				srcE = stripConv(info, d.rhs)
+			}
+			if call, ok := srcE.(*ast.CallExpr); ok {
 				if (callIs(info, call, "bufio", "Scanner", "Bytes") || callIs(info, call, "bufio", "Scanner", "Text")) && c29RecvObj(info, call) == s.obj {
 					srcOK = true
 				}
@@ -760,6 +800,10 @@ func (c *Ctx) c29Reader(pk *packages.Package, fd *ast.FuncDecl) (types.Type, map
 				okAll := true
 				var why []string
 				for _, f := range facts {
+					// the written-out loop condition (`if !sc.Scan() { break }`) is not a skip
+					if cl, isCall := unparen(f.E).(*ast.CallExpr); isCall && f.True && callIs(info, cl, "bufio", "Scanner", "Scan") && c29RecvObj(info, cl) == s.obj {
+						continue
+					}
 					switch c.c29SkipAtom(info, f.E, errObj, target) {
 					case "err":
 						if f.True { // appended only when decode failed
@@ -970,8 +1014,19 @@ func (c *Ctx) c29Writer(pk *packages.Package, fd *ast.FuncDecl) (types.Type, *as
 			continue
 		}
 		if c29RecvObj(info, call) == fobj && (objIs(o, "os", "File", "Write") || objIs(o, "os", "File", "WriteString")) && len(call.Args) == 1 {
+			c29UsePos = call.Pos()
 			writes = append(writes, wr{call, c29Classify(c.c29Bytes(info, defs, call.Args[0], 0))})
+			c29UsePos = token.NoPos
 			continue
+		}
+		// fmt.Fprintf(handle, <const format>, …): one Write of the formatted bytes
+		if callIs(info, call, "fmt", "", "Fprintf") && len(call.Args) >= 2 {
+			if id, ok := unparen(call.Args[0]).(*ast.Ident); ok && info.ObjectOf(id) == fobj {
+				c29UsePos = call.Pos()
+				writes = append(writes, wr{call, c29Classify(c.c29Fprintf(info, defs, call))})
+				c29UsePos = token.NoPos
+				continue
+			}
 		}
 		// other ways of writing to / moving within the handle
 		usesHandle := false
@@ -1290,9 +1345,10 @@ func (c *Ctx) c29Gate(info *types.Info, defs c29defs, fd *ast.FuncDecl, fn strin
 					continue
 				}
 			}
-			if isSetting(f.E, 0) {
+			ge, gtruth := c29NormBool(info, f.E, f.True)
+			if isSetting(ge, 0) {
 				nGate++
-				if !f.True {
+				if !gtruth {
 					justified = setting + " is false"
 				} else {
 					contradiction = "returns without writing although " + setting + " is TRUE (and writes when it is false): with the default setting no command is ever stored"
@@ -1353,6 +1409,8 @@ func (c *Ctx) c29NoRewrite(pk *packages.Package, writers []*ast.FuncDecl) {
 			switch {
 			case mut[o.Name()]:
 				c.Viol("R29b", "pkg:"+fd.Name.Name+":"+p+"."+o.Name(), call.Pos(), "%s calls %s.%s: the history file is no longer append-only — a crash during this call can lose entries written earlier", fd.Name.Name, p, o.Name())
+			case o.Name() == "OpenFile" && c.c29ReadOnlyOpen(info, call):
+				c.OK("R29b", "pkg:"+fd.Name.Name+":"+p+"."+o.Name(), call.Pos(), "read-only os.OpenFile (same as os.Open) does not modify a file")
 			case o.Name() == "OpenFile" && !isWriter[fd]:
 				c.Undecided("R29b", "pkg:"+fd.Name.Name+":os.OpenFile", call.Pos(), "additional os.OpenFile outside the recognised writer")
 			case o.Name() == "OpenFile":
@@ -1458,4 +1516,141 @@ func (c *Ctx) c29Schema(pk *packages.Package, rt types.Type, readerAssigned map[
 	} else {
 		c.Undecided("R29d", "writer:text-value", token.NoPos, "cannot locate the record literal / text key of the writer")
 	}
+}
+
+// c29NormBool reduces `x == false`, `x != true`, `false == x`, `!x` … to (x, truth).
+func c29NormBool(info *types.Info, e ast.Expr, truth bool) (ast.Expr, bool) {
+	for i := 0; i < 8; i++ {
+		e = unparen(e)
+		if u, ok := e.(*ast.UnaryExpr); ok && u.Op == token.NOT {
+			e, truth = u.X, !truth
+			continue
+		}
+		b, ok := e.(*ast.BinaryExpr)
+		if !ok || (b.Op != token.EQL && b.Op != token.NEQ) {
+			return e, truth
+		}
+		if k, isK := constBool(info, b.Y); isK {
+			e, truth = b.X, truth == ((b.Op == token.EQL) == k)
+			continue
+		}
+		if k, isK := constBool(info, b.X); isK {
+			e, truth = b.Y, truth == ((b.Op == token.EQL) == k)
+			continue
+		}
+		return e, truth
+	}
+	return e, truth
+}
+
+// c29OsConst: value of an integer constant of package os (-1 when unknown).
+func (c *Ctx) c29OsConst(name string) int64 {
+	if p := c.All["os"]; p != nil {
+		if k, ok := p.Types.Scope().Lookup(name).(*types.Const); ok {
+			if v, ok := constant.Int64Val(constant.ToInt(k.Val())); ok {
+				return v
+			}
+		}
+	}
+	return -1
+}
+
+// c29ReadOnlyOpen: os.OpenFile(name, <constant flags without write access,
+// O_APPEND, O_CREATE, O_TRUNC>, perm) — the same as os.Open(name).
+func (c *Ctx) c29ReadOnlyOpen(info *types.Info, call *ast.CallExpr) bool {
+	if !callIs(info, call, "os", "", "OpenFile") || len(call.Args) != 3 {
+		return false
+	}
+	flags, ok := constInt(info, call.Args[1])
+	if !ok {
+		return false
+	}
+	mask := int64(0)
+	for _, n := range []string{"O_WRONLY", "O_RDWR", "O_APPEND", "O_CREATE", "O_TRUNC"} {
+		v := c.c29OsConst(n)
+		if v < 0 {
+			return false
+		}
+		mask |= v
+	}
+	return flags&mask == 0
+}
+
+// c29ScanBreakHead: st is `if !sc.Scan() { break }` for the given scanner — the
+// loop condition of `for sc.Scan()` written out as the first statement of `for {`.
+func c29ScanBreakHead(info *types.Info, st ast.Stmt, sc types.Object) bool {
+	is, ok := st.(*ast.IfStmt)
+	if !ok || is.Init != nil || is.Else != nil || len(is.Body.List) != 1 {
+		return false
+	}
+	br, ok := is.Body.List[0].(*ast.BranchStmt)
+	if !ok || br.Tok != token.BREAK || br.Label != nil {
+		return false
+	}
+	u, ok := unparen(is.Cond).(*ast.UnaryExpr)
+	if !ok || u.Op != token.NOT {
+		return false
+	}
+	call, ok := unparen(u.X).(*ast.CallExpr)
+	return ok && callIs(info, call, "bufio", "Scanner", "Scan") && c29RecvObj(info, call) == sc
+}
+
+// c29Fprintf evaluates the bytes fmt.Fprintf(w, format, args…) writes, for a
+// constant format whose only verbs are %s (string / []byte operand) and %%.
+func (c *Ctx) c29Fprintf(info *types.Info, defs c29defs, call *ast.CallExpr) []c29part {
+	unknown := []c29part{{kind: "unknown", src: c.src(call)}}
+	format, ok := constString(info, call.Args[1])
+	if !ok {
+		return unknown
+	}
+	args := call.Args[2:]
+	var out []c29part
+	lit := ""
+	flush := func() {
+		if lit != "" {
+			out = append(out, c29part{kind: "const", val: lit})
+			lit = ""
+		}
+	}
+	for i := 0; i < len(format); i++ {
+		if format[i] != '%' {
+			lit += string(format[i])
+			continue
+		}
+		if i+1 >= len(format) {
+			return unknown
+		}
+		i++
+		switch format[i] {
+		case '%':
+			lit += "%"
+		case 's':
+			if len(args) == 0 {
+				return unknown
+			}
+			a := args[0]
+			args = args[1:]
+			switch u := info.TypeOf(a).Underlying().(type) {
+			case *types.Basic:
+				if u.Info()&types.IsString == 0 {
+					return unknown
+				}
+			case *types.Slice:
+				if b, isB := u.Elem().Underlying().(*types.Basic); !isB || b.Kind() != types.Byte {
+					return unknown
+				}
+			default:
+				return unknown
+			}
+			flush()
+			out = append(out, c.c29Bytes(info, defs, a, 0)...)
+		default:
+			return unknown
+		}
+	}
+	if len(args) != 0 {
+		return unknown
+	}
+	flush()
+	return out
 }
